@@ -494,6 +494,9 @@ def _oracle(label, w, got, names, memo, done, ej, bev, eev, ref_ok):
     """Returns a list of violation descriptions for one transition."""
     out = []
     log = w.log
+    if got.ok != ref_ok:
+        # values are C01's / C05's subject; here only: an evaluation the reference can carry out is carried out
+        out.append(f"outcome:{got!r} although the reference evaluation {'succeeds' if ref_ok else 'fails'}")
     runs = {}
     for k, n in log:
         if k == "body":
